@@ -323,7 +323,10 @@ class ZoneClock(env.Clock):
         self._saved = (time_util.time, time_util.datetime)
         time_util.time = _LocalFakeTime(self)
         time_util.datetime = FakeDT
-        self.selfcheck()
+        # the self-check compares against UTC readings: under another zone a library that reads local time is a FINDING
+        # (reported by zone_text_layer with its own key), not a defeated clock patch
+        if _time.timezone == 0 and _time.localtime(self.now).tm_gmtoff == 0:
+            self.selfcheck()
         return self
 
 
